@@ -63,6 +63,16 @@ Theorem C06_returns_after_all : forall scr s l s',
 Proof. exact (fun scr s l s' => returns_after_all code_cfg scr s l s' C06_cfg_good). Qed.
 Print Assumptions C06_returns_after_all.
 
+(** Whenever the caller is outside [broadcast] — in particular where pool.rs
+    drops its caught panic payload, after the wait loop, and hence also when a
+    panicking payload destructor makes that drop escape from [broadcast] — the
+    task block is dead and no worker is still before its decrement. *)
+Theorem C06_caller_past_loop : forall scr s,
+  reachable code_cfg scr s -> in_broadcast (cst s) = false ->
+  alive s = false /\ Forall (fun w => any_pre w = false) (ws s).
+Proof. exact (fun scr s => caller_past_loop code_cfg scr s C06_cfg_good). Qed.
+Print Assumptions C06_caller_past_loop.
+
 (** No worker ever touches the task block when it is not alive or not the
     current one ([bad] is raised by such a touch and by a counter underflow);
     every worker before its decrement belongs to the current broadcast, whose
